@@ -240,6 +240,18 @@ def run(tier='quick'):
         ver = schemas.version_of_class(prog, cls)
         (tr, variant) = c13._triple(en)
         inst = '%s: creator %s writes %s' % (en, cls.split('::')[-1], ver)
+        # the INSERTs into Information the creator executes (its own body, inherited bodies and helpers)
+        # bind the members of *this* class's schema_version, not those of a base class
+        from . import c12
+        ninfo = 0
+        for e in schemas.creation_trace(prog, cls):
+            if e.stmt.kind == 'insert' and (e.stmt.table or '').lower() == 'information':
+                ninfo += 1
+                c12._check_info_insert(prog, chk, N5, cls, cls.split('::')[-1], ver, e)
+        if ninfo == 0:
+            chk.violation(N5, '%s|no Information row' % en, '-',
+                          '%s: the creator executes no INSERT INTO Information: the library cannot be detected '
+                          'after reopening' % en)
         if ver == tr:
             chk.ok(N5, inst, '-')
         else:
